@@ -313,6 +313,19 @@ func WriteEvidence(opt Options, rr *RunResult, v *Verdict, wall float64, level s
 	tb := append([]string{}, trustedBase...)
 	tb = append(tb, rr.Trusted...)
 	tb = append(tb, rr.Axioms...)
+	tb = append(tb, rr.Inputs...)
+	tb = append(tb, "alias scan: common.Vote, nns.Transfer, nns.SetAdmin are exempted by name after inspection (DESIGN.md 2.3); the scan is syntactic and conservative")
+	{ // no duplicates (a module may be generated as own and as used module)
+		seen := map[string]bool{}
+		var u []string
+		for _, x := range tb {
+			if !seen[x] {
+				seen[x] = true
+				u = append(u, x)
+			}
+		}
+		tb = u
+	}
 	cov["trusted_base"] = tb
 	cov["modules"] = rr.Modules
 	cov["functions_under_contract"] = rr.Funcs
